@@ -9,7 +9,10 @@ LEVEL_TEXT = ("exhaustive over the fault index (every KKT factor/solve call of t
 RULE = ("problem sample: planted feasible cone LPs/QPs and smooth problems; per problem all F factor indices (one-shot + persistent) and all S solve "
         "indices are injected; class signature = solver x start kind x fault site x tag(startup/iteration 0/later) x outcome class")
 ASSUMPTIONS = ["the fault model is ArithmeticError raised by the user-visible KKT call-back at a chosen call (what a singular factorisation produces)",
-               "exhaustive: true refers to the injection index per sampled problem, not to the problems"]
+               "exhaustive: true refers to the injection index per sampled problem, not to the problems",
+               "'during start-up and the first iteration it raises the documented ValueError': demanded for every start-up call, for iteration 0 of "
+               "coneqp/cpl/cp, and for iteration 0 of conelp when both start points are supplied (then it is the first use of the KKT system); "
+               "conelp answers 'unknown' for an iteration-0 failure that follows a successful start-up factorisation - both outcomes are accepted there"]
 REQUIRED_COUNTERS = ["inject.conelp.factor", "inject.conelp.solve", "inject.coneqp.factor", "inject.coneqp.solve", "inject.cpl.factor",
                      "inject.cpl.solve", "inject.cp.factor", "inject.cp.solve", "outcome.unknown", "outcome.rank-ValueError",
                      "refusing-F.runs", "with-start-points"]
